@@ -38,17 +38,18 @@ def selftest():
 NAMES = ('a', 'j', 'e', 'zz')
 
 
-def check_queries(node, inp):
+def check_queries(node, inp, sub='expr', vinp=None):
     """Compare every reference query of node (an expression or predicate) with the own walkers."""
     text = inp.get('text')
+    vinp = vinp if vinp is not None else inp
 
     def bad(what, got, want):
-        raise Violation('queries', f'{what}:{astx.cname(node)}', inp, f'{what} of {text!r} ({node}) = {got!r}, own walker says {want!r}')
+        raise Violation(sub, f'{what}:{astx.cname(node)}', vinp, f'{what} of {text!r} ({node}) = {got!r}, own walker says {want!r}')
 
     free = astx.free_refs(node)
     st, r = core.guarded(node.external_references)
     if st == 'exc':
-        raise Violation('queries', f'external_references:{core.exc_sig(r)}', inp, f'external_references() of {text!r} raised {type(r).__name__}: {r}')
+        raise Violation(sub, f'external_references:{core.exc_sig(r)}', vinp, f'external_references() of {text!r} raised {type(r).__name__}: {r}')
     if set(r) != free:
         bad('external_references()', sorted(r), sorted(free))
     names = sorted(set(NAMES) | {n.token[1:] for n in astx.preorder(node) if astx.cname(n) == 'HplVarReference'})
@@ -63,7 +64,7 @@ def check_queries(node, inp):
     st, r = core.guarded(node.contains_self_reference)
     if st == 'exc' or bool(r) != astx.mentions_this(node):
         bad('contains_self_reference()', r, astx.mentions_this(node))
-    check_iterate(node, inp)
+    check_iterate(node, vinp, sub)
     if astx.cname(node) == 'HplPredicateExpression':
         from hpl.errors import HplSanityError
 
@@ -73,49 +74,49 @@ def check_queries(node, inp):
         except HplSanityError:
             passed = False
         except Exception as e:  # noqa
-            raise Violation('queries', f'check_some_self_references:{core.exc_sig(e)}', inp, f'check_some_self_references() of {text!r} raised {type(e).__name__}: {e}')
+            raise Violation(sub, f'check_some_self_references:{core.exc_sig(e)}', vinp, f'check_some_self_references() of {text!r} raised {type(e).__name__}: {e}')
         if passed != astx.mentions_this(node):
             bad('check_some_self_references() passing', passed, astx.mentions_this(node))
 
 
-def check_iterate(node, inp):
+def check_iterate(node, inp, sub='expr'):
     st, got = core.guarded(lambda: list(node.iterate()))
     want = astx.preorder(node)
     if st == 'exc':
-        raise Violation('queries', f'iterate:{core.exc_sig(got)}', inp, f'iterate() raised {type(got).__name__}: {got}')
+        raise Violation(sub, f'iterate:{core.exc_sig(got)}', inp, f'iterate() raised {type(got).__name__}: {got}')
     if len(got) != len(want) or any(g is not w for g, w in zip(got, want)):
         raise Violation(
-            'queries', f'iterate:{astx.cname(node)}', inp,
+            sub, f'iterate:{astx.cname(node)}', inp,
             f'iterate() of {inp.get("text")!r} is not the pre-order, left-to-right list of nodes:\n got  {[astx.cname(x) + ":" + str(x)[:20] for x in got][:12]}\n want {[astx.cname(x) + ":" + str(x)[:20] for x in want][:12]}',
         )  # fmt: skip
 
 
-def check_event(ev, inp):
+def check_event(ev, inp, sub='property'):
     flat = astx.flat_events(ev)
     want_aliases = tuple(e.alias for e in flat if e.alias is not None)
     st, r = core.guarded(ev.aliases)
     if st == 'exc' or tuple(r) != want_aliases:
-        raise Violation('queries', 'aliases', inp, f'aliases() of {ev} = {r!r}, expected {want_aliases!r} (source order)')
+        raise Violation(sub, 'aliases', inp, f'aliases() of {ev} = {r!r}, expected {want_aliases!r} (source order)')
     free = set()
     for e in flat:
         free |= astx.free_refs(e)
     st, r = core.guarded(ev.external_references)
     if st == 'exc' or set(r) != free:
-        raise Violation('queries', f'event-external_references:{astx.cname(ev)}', inp, f'external_references() of {ev} = {r!r}, own walker says {sorted(free)}')
+        raise Violation(sub, f'event-external_references:{astx.cname(ev)}', inp, f'external_references() of {ev} = {r!r}, own walker says {sorted(free)}')
     for nm in sorted(set(NAMES) | set(want_aliases)):
         want = any(astx.mentions_var(e.predicate, nm) for e in flat)
         st, r = core.guarded(ev.contains_reference, nm)
         if st == 'exc' or bool(r) != want:
-            raise Violation('queries', f'event-contains_reference:{astx.cname(ev)}', inp, f'contains_reference({nm!r}) of {ev} = {r!r}, own walker says {want}')
+            raise Violation(sub, f'event-contains_reference:{astx.cname(ev)}', inp, f'contains_reference({nm!r}) of {ev} = {r!r}, own walker says {want}')
     want = any(astx.mentions_this(e.predicate) for e in flat)
     st, r = core.guarded(ev.contains_self_reference)
     if st == 'exc' or bool(r) != want:
-        raise Violation('queries', f'event-contains_self_reference:{astx.cname(ev)}', inp, f'contains_self_reference() of {ev} = {r!r}, own walker says {want}')
+        raise Violation(sub, f'event-contains_self_reference:{astx.cname(ev)}', inp, f'contains_self_reference() of {ev} = {r!r}, own walker says {want}')
     st, r = core.guarded(lambda: list(ev.simple_events()))
     if st == 'exc' or len(r) != len(flat) or any(x is not y for x, y in zip(r, flat)):
-        raise Violation('queries', 'simple_events', inp, f'simple_events() of {ev} is not the source-order list of alternatives')
+        raise Violation(sub, 'simple_events', inp, f'simple_events() of {ev} is not the source-order list of alternatives')
     for e in flat:
-        check_queries(e.predicate, dict(inp, text=str(e.predicate)))
+        check_queries(e.predicate, dict(inp, text=str(e.predicate)), sub=sub, vinp=inp)
 
 
 def sub_expr(inp):
@@ -132,7 +133,7 @@ def sub_property(inp):
     k, p = lib.outcome(inp.get('kind', 'property'), inp['text'])
     if k != 'ast':
         return None
-    check_iterate(p, inp)
+    check_iterate(p, inp, 'property')
     props = p.properties if astx.cname(p) == 'HplSpecification' else [p]
     for pr in props:
         for ev in (pr.scope.activator, pr.scope.terminator, pr.pattern.trigger, pr.pattern.behaviour):
@@ -141,7 +142,7 @@ def sub_property(inp):
         evs = list(pr.events())
         want = [e for e in (pr.scope.activator, pr.pattern.behaviour, pr.pattern.trigger, pr.scope.terminator) if e is not None]
         if len(evs) != len(want) or any(x is not y for x, y in zip(evs, want)):
-            raise Violation('queries', 'property-events', inp, 'events() does not list activator, behaviour, trigger, terminator')
+            raise Violation('property', 'property-events', inp, 'events() does not list activator, behaviour, trigger, terminator')
     return p
 
 
@@ -152,8 +153,8 @@ def sub_event(inp):
     st, ev = core.guarded(c02.build_event_api, inp['ev'])
     if st == 'exc':
         return None
-    check_event(ev, dict(inp, text=mast.render(inp['ev'])))
-    check_iterate(ev, dict(inp, text=mast.render(inp['ev'])))
+    check_event(ev, inp, sub='event')
+    check_iterate(ev, inp, 'event')
     return ev
 
 
@@ -321,7 +322,7 @@ def run_table(ctx):
                 for node in astx.preorder(a):
                     if astx.is_expr(node) and astx.cname(node) in ('HplQuantifier', 'HplBinaryOperator'):
                         try:
-                            check_queries(node, dict(inp, text=str(node)))
+                            check_queries(node, dict(inp, text=str(node)), sub='expr', vinp=inp)
                         except Violation as vi:
                             ctx.report(vi)
     for label, T, term, depth in table_terms():
